@@ -12,7 +12,8 @@ from opacus.layers import DPRNN, DPGRU, DPLSTM
 
 def make_pair(c):
     torch.manual_seed(c['seed'])
-    kw = dict(input_size=c['D'], hidden_size=c['H'], num_layers=c['layers'], bias=c['bias'], batch_first=c['bf'], bidirectional=c['bidir'])
+    kw = dict(input_size=c['D'], hidden_size=c['H'], num_layers=c['layers'], bias=c['bias'], batch_first=c['bf'], bidirectional=c['bidir'],
+              dropout=(c.get('dropout', 0.0) if c['layers'] > 1 else 0.0))
     if c['kind'] == 'rnn':
         t, d = nn.RNN(nonlinearity=c['nl'], **kw), DPRNN(nonlinearity=c['nl'], **kw)
     elif c['kind'] == 'gru':
@@ -128,6 +129,35 @@ class StubCell:
         return x + 2 * hp
 
 
+def run_dropout(c):
+    """train mode, 0 < dropout < 1, padded input, tanh / gated cells: torch.nn applies dropout to the outputs of every layer but the last and never to
+    the recurrent state.  Observable without knowing the mask: the final outputs and ALL final hidden states contain no exact zero (a dropped
+    entry is exactly 0.0), and the train-mode output differs from the eval-mode output when there are >= 2 layers."""
+    out = {'error': None, 'fails': []}
+    try:
+        t, d = make_pair(c)
+        d.load_state_dict(t.state_dict())
+        g = torch.Generator().manual_seed(c['seed'] + 3)
+        x = torch.randn(c['B'], c['T'], c['D'], generator=g) if c['bf'] else torch.randn(c['T'], c['B'], c['D'], generator=g)
+        torch.manual_seed(c['seed'])
+        d.train()
+        o, hn = d(x)
+        hs = hn if isinstance(hn, tuple) else (hn,)
+        if int((o == 0).sum()) > 0:
+            out['fails'].append(['dropout-placement', 'train mode, dropout=%s: %d entries of the LAST layer\'s output are exactly zero (dropout applied to the final output)' % (c['dropout'], int((o == 0).sum()))])
+        for i, h in enumerate(hs):
+            if int((h == 0).sum()) > 0:
+                out['fails'].append(['dropout-placement', 'train mode, dropout=%s: %d entries of the final %s state are exactly zero (dropout applied to the recurrent state)' % (c['dropout'], int((h == 0).sum()), 'hidden' if i == 0 else 'cell')])
+        d.eval()
+        o2, _ = d(x)
+        if c['layers'] > 1 and float((o - o2).abs().max()) == 0.0:
+            out['fails'].append(['dropout-placement', 'train mode, dropout=%s, %d layers: output equals the eval-mode output (no dropout between layers)' % (c['dropout'], c['layers'])])
+    except Exception as e:
+        import traceback
+        out['error'] = errname(e) + ': ' + str(e)[:300] + ' @ ' + traceback.format_exc()[-700:]
+    return out
+
+
 def run_plumb(c):
     """rows: length-sorted integer sequences; h0: one integer per row"""
     out = {'error': None}
@@ -159,4 +189,5 @@ def run_plumb(c):
 
 if __name__ == '__main__':
     p = read_payload()
-    emit({'equiv': [run_equiv(c) for c in p.get('equiv', [])], 'plumb': [run_plumb(c) for c in p.get('plumb', [])]})
+    emit({'equiv': [run_equiv(c) for c in p.get('equiv', [])], 'plumb': [run_plumb(c) for c in p.get('plumb', [])],
+          'dropout': [run_dropout(c) for c in p.get('dropout', [])]})
